@@ -1,3 +1,4 @@
+#define VP_AMBIENT_ROUNDING 1 // results of this executor may not depend on the dynamic floating-point rounding mode (drv/vp.h)
 // trees.cc — C01 (AVL), C02 (red-black), C03 (iterators + tear-down) executors.
 // Build with -DVP_PROP=1|2|3 and, for C03, -DVP_RBT to select the container.
 // Oracle: std::map model + full structural walk after every API call; recursive reference
@@ -37,6 +38,7 @@ struct Item
     int serial;
 };
 static inline Item *item(N *n) { return (Item *)((char *)n - offsetof(Item, node)); }
+static void free_item(Item *it); // heap block or arena slot (below)
 
 // The node layout depends on A_SIZE_POINTER: packed (colour / balance in the low bits of parent_) or separate members.
 #ifdef VP_RBT
@@ -86,12 +88,12 @@ static int cmp_key(void const *ctx, void const *b)
 enum
 {
     L_RM_LEAF, L_RM_ONE, L_RM_TWO_SUCC_RIGHT, L_RM_TWO_SUCC_DEEP, L_DUP, L_ROOT_CHANGED, L_SIZE16, L_SIZE64,
-    L_INS_AFTER_RM, L_RM_BLACK, L_BATTERY, L_TEAR_INTERRUPT, L_TEAR_RESTART, L_EMPTIED, L_LEFT_ONLY, L_RIGHT_ONLY, L_RM_ROOT, L_MANUAL_INSERT, L_TEAR_START_NODE, L_CMP_MAGNITUDE, L_TALL, L_DUP_SELF
+    L_INS_AFTER_RM, L_RM_BLACK, L_BATTERY, L_TEAR_INTERRUPT, L_TEAR_RESTART, L_EMPTIED, L_LEFT_ONLY, L_RIGHT_ONLY, L_RM_ROOT, L_MANUAL_INSERT, L_TEAR_START_NODE, L_CMP_MAGNITUDE, L_TALL, L_DUP_SELF, L_SPREAD_NODES
 };
 static char const *const labels[] = {"remove_leaf", "remove_one_child", "remove_two_children_successor_is_right_child",
                                      "remove_two_children_deeper_successor", "duplicate_insert", "root_changed", "size_ge_16", "size_ge_64",
                                      "insert_after_remove", "rbt_removed_black_node", "iterator_battery_on_ge5_nodes", "tear_interrupted_midway",
-                                     "tear_restarted_from_null", "tree_emptied_and_refilled", "has_left_only_node", "has_right_only_node", "remove_root", "manual_link_plus_insert_adjust", "tear_started_at_arbitrary_node", "comparator_returns_magnitudes_not_just_signs", "tall_minimal_shape_143_to_28656_nodes", "resident_element_offered_to_insert_again", nullptr};
+                                     "tear_restarted_from_null", "tree_emptied_and_refilled", "has_left_only_node", "has_right_only_node", "remove_root", "manual_link_plus_insert_adjust", "tear_started_at_arbitrary_node", "comparator_returns_magnitudes_not_just_signs", "tall_minimal_shape_143_to_28656_nodes", "resident_element_offered_to_insert_again", "nodes_spread_over_heap_and_arenas_more_than_4GiB_apart", nullptr};
 static char const *const metrics[] = {"max_live_nodes", "max_height", nullptr};
 static uint8_t const dict[] = {4, 5, 6, 12, 13, 20, 21};
 
@@ -365,7 +367,7 @@ static void tear_down(Ctx &cx, Tree &t, size_t j, int mode, bool do_free, long s
         if (do_free)
         {
             memset((void *)cur, 0xDD, sizeof(N)); // poison the links, then free (ASan sees later reads)
-            free(item(cur));
+            free_item(item(cur));
         }
     };
     if (mode == 2)
@@ -423,9 +425,59 @@ static void tear_down(Ctx &cx, Tree &t, size_t j, int mode, bool do_free, long s
 }
 
 // ---------------------------------------------------------------------------------------
+// Nodes are caller memory: nothing says they come from one heap. In half of the histories the elements are spread over the heap
+// and three mapped arenas whose addresses differ in the upper 32 bits (below 2 GiB, and two far-apart places in the upper half of
+// the address space), so that a parent and its child can lie more than 4 GiB apart. Arena slots are poisoned while they are not
+// handed out (ASan), like freed heap blocks.
+#include <sys/mman.h>
+#include <sanitizer/asan_interface.h>
+struct Arena { uint8_t *base = nullptr; size_t cap = 0, used = 0; };
+static Arena g_arena[3];
+static bool g_spread = false;
+static void arenas_reset()
+{
+    static bool init = false;
+    if (!init)
+    {
+        init = true;
+        static uintptr_t const hint[3] = {uintptr_t(0x10000000ull), uintptr_t(0x200000000000ull), uintptr_t(0x500000000000ull)};
+        for (int i = 0; i < 3; ++i)
+        {
+            size_t cap = size_t(4) << 20;
+            void *p = mmap((void *)hint[i], cap, PROT_READ | PROT_WRITE, MAP_PRIVATE | MAP_ANONYMOUS | MAP_NORESERVE, -1, 0);
+            if (p != MAP_FAILED) { g_arena[i].base = (uint8_t *)p; g_arena[i].cap = cap; }
+        }
+    }
+    for (auto &a : g_arena)
+    {
+        if (a.base) { ASAN_UNPOISON_MEMORY_REGION(a.base, a.used); ASAN_POISON_MEMORY_REGION(a.base, a.cap); }
+        a.used = 0;
+    }
+}
+static inline Arena *arena_of(void const *p)
+{
+    for (auto &a : g_arena) { if (a.base && (uint8_t const *)p >= a.base && (uint8_t const *)p < a.base + a.cap) { return &a; } }
+    return nullptr;
+}
+static void free_item(Item *it)
+{
+    if (arena_of(it)) { ASAN_POISON_MEMORY_REGION(it, sizeof(Item)); }
+    else { free(it); }
+}
 static Item *new_item(Tree &t, int key)
 {
-    Item *it = (Item *)malloc(sizeof(Item));
+    Item *it = nullptr;
+    if (g_spread)
+    {
+        unsigned r = unsigned(t.serial) % 4;
+        if (r < 3 && g_arena[r].base && g_arena[r].used + sizeof(Item) <= g_arena[r].cap)
+        {
+            it = (Item *)(g_arena[r].base + g_arena[r].used);
+            g_arena[r].used += (sizeof(Item) + 15) & ~size_t(15);
+            ASAN_UNPOISON_MEMORY_REGION(it, sizeof(Item));
+        }
+    }
+    if (!it) { it = (Item *)malloc(sizeof(Item)); }
     memset(it, 0xCC, sizeof(Item));
     it->key = key;
     it->serial = t.serial++;
@@ -446,7 +498,7 @@ static void snapshot(Tree &t, std::vector<uint8_t> &s)
 
 static void free_all(Tree &t)
 {
-    for (auto &kv : t.model) { free(kv.second); }
+    for (auto &kv : t.model) { free_item(kv.second); }
     t.model.clear();
 }
 
@@ -496,7 +548,7 @@ static void do_insert(Ctx &cx, Tree &t, int key, bool &inserted)
             // the duplicate was linked in: it now belongs to the tree; do not free it
             cx.fail("insert:duplicate_linked", "%s insert of resident key %d returned null (element linked twice)", kName, key);
         }
-        free(it);
+        free_item(it);
         VP_CHECK(cx, resident, "insert:duplicate_wrong_return", "%s duplicate insert of key %d did not return the resident element", kName, key);
         VP_CHECK(cx, same, "insert:duplicate_modified_tree", "%s duplicate insert of key %d changed node/root bytes", kName, key);
     }
@@ -531,7 +583,7 @@ static int do_remove(Ctx &cx, Tree &t, int key)
     TF(remove)(&t.root, n);
     t.model.erase(f);
     memset((void *)&it->node, 0xDD, sizeof(N));
-    free(it);
+    free_item(it);
     return kind;
 }
 
@@ -580,7 +632,7 @@ static void tall_scenario(Tape &tp, Ctx &cx, Tree &t)
         N *res = TF(insert)(&t.root, &it->node, cmp_nodes);
         if (res != nullptr)
         {
-            free(it);
+            free_item(it);
             cx.fail("insert:absent_key_rejected", "%s insert of absent key %d returned a node", kName, dk.second);
         }
         t.model[dk.second] = it;
@@ -622,8 +674,11 @@ static void run_case(Tape &tp, Ctx &cx)
     int tear_mode = tp.u8() % 3;
     long tear_start = (tp.u8() % 3 == 0) ? long(tp.u8()) : -1;
 #endif
+    g_spread = (tp.tail() & 0x40) != 0;
+    arenas_reset();
+    if (g_spread) { cx.label(L_SPREAD_NODES); }
     cx.hash.add(uint64_t(U));
-    cx.log("%s, key universe %d, comparator style %d\n", kName, U, g_cmp_style);
+    cx.log("%s, key universe %d, comparator style %d%s\n", kName, U, g_cmp_style, g_spread ? ", nodes spread over the heap and three distant arenas" : "");
     cx.hash.add(uint64_t(g_cmp_style) << 16);
     if (g_cmp_style) { cx.label(L_CMP_MAGNITUDE); }
     unsigned nins = 0, nrm = 0, nops = 0, ins_after_rm = 0, two_child = 0;
